@@ -668,7 +668,7 @@ def check_checkkw(recipe, ctx):
 
 SUBS = [
     Sub('bool', check_bool, gen=gen_bool, quick=8000, thorough=30000,
-        floors={'exp-ok': 0.2, 'exp-rej': 0.2, 'short-circuit': 0.03, 'build-ops': 0.2}),
+        floors={'exp-ok': 0.2, 'exp-rej': 0.2, 'short-circuit': 0.02, 'build-ops': 0.2}),
     Sub('switch', check_switch, gen=gen_switch, quick=3000, thorough=10000, floors={'exp-ok': 0.2, 'exp-rej': 0.05}),
     Sub('checkkw', check_checkkw, gen=gen_check, quick=4000, thorough=15000, floors={'pass': 0.05, 'default': 0.2}),
     Sub('reuse', check_reuse, gen=gen_reuse, quick=800, thorough=4000),
